@@ -105,6 +105,12 @@ class Frame:
         self.loop_ordinal = 0
 
 
+class SpecRaises(Unsupported):
+    def __init__(self, kind, msg):
+        Unsupported.__init__(self, msg)
+        self.kind = kind
+
+
 class Engine:
     MAX_INLINE_DEPTH = 6
 
@@ -451,12 +457,23 @@ class Engine:
     def ev_Constant(self, node, st):
         return [(node.value, st)]
 
+    def opq_key(self, name):
+        """the contract's `opaque` entry for a callee name as written in the current function: '<module of that function>:<name>' wins over the bare name (two modules
+        may use one name for different callees: parse.py's `docstring` is parse.docstring, emit.py's is emit.docstring)"""
+        if not self.opaque or name is None:
+            return None
+        if self.frames and self.frames[-1].fn is not None:
+            q = "%s:%s" % ((self.frames[-1].fn.glob or {}).get("__name__"), name)
+            if q in self.opaque:
+                return q
+        return name if name in self.opaque else None
+
     def ev_Name(self, node, st):
-        if self.opaque and node.id in self.opaque and len(self.frames) >= 1:
+        if self.opaque and len(self.frames) >= 1 and self.opq_key(node.id) is not None:
             fr = self.frames[-1]
             local = any(node.id in (st.scopes.get(sid) or {}) for sid in [fr.sid] + list(fr.fn.scopes if fr.fn else []))
             if not local:
-                return [(OpaqueFn(node.id), st)]  # the opaque callee used as a value (map(f, ...), partial(f, ...))
+                return [(OpaqueFn(node.id, self.opq_key(node.id)), st)]  # the opaque callee used as a value (map(f, ...), partial(f, ...))
         return [(self.lookup(node.id, st), st)]
 
     def ev_Tuple(self, node, st):
@@ -986,8 +1003,9 @@ class Engine:
                 ftxt = ast.unparse(node.func)
             except Exception:
                 ftxt = None
-            if ftxt in self.opaque:
-                return self.opaque_call(ftxt, node, st)
+            key = self.opq_key(ftxt)
+            if key is not None:
+                return self.opaque_call(ftxt, node, st, key)
 
         def after_f(fv, s):
             def after_args(args, s2):
@@ -1008,9 +1026,9 @@ class Engine:
 
         return self.bind(self.ev(node.func, st), after_f)
 
-    def opaque_call(self, name, node, st):
+    def opaque_call(self, name, node, st, key=None):
         """a call the contract declares opaque: arguments are evaluated, the call is logged, the result is a fresh value"""
-        spec = self.opaque[name]
+        spec = self.opaque[key or name]
 
         def after_args(args, s2):
             def after_kw(kwvals, s3):
@@ -1020,7 +1038,7 @@ class Engine:
                         kwargs.update(self.dict_items_concrete(v, s3))
                     else:
                         kwargs[k.arg] = v
-                return self.opaque_apply(name, list(args), kwargs, s3)
+                return self.opaque_apply(name, list(args), kwargs, s3, key)
 
             return self.bind(self.ev_list([k.value for k in node.keywords], s2), after_kw)
 
@@ -1039,8 +1057,8 @@ class Engine:
         except Exception:  # noqa
             return None
 
-    def opaque_apply(self, name, args, kwargs, s3):
-        spec = self.opaque[name]
+    def opaque_apply(self, name, args, kwargs, s3, key=None):
+        spec = self.opaque[key or name]
         self.opq_ctr = getattr(self, "opq_ctr", 0) + 1
         tag = "%s#%d" % (name.replace(".", "_"), self.opq_ctr)
         ret = spec.get("ret", "obj")
@@ -1059,10 +1077,29 @@ class Engine:
             r = Native(dict)
         elif isinstance(ret, tuple) and ret[0] == "obj":
             r = Opq(fresh("r_" + tag, Obj), ret[1])
+        elif isinstance(ret, tuple) and ret[0] in ("dict", "tuple", "list", "node"):
+            # a structured result of known shape and arbitrary content (e.g. "the docstring parser returns SOME description of these parameters")
+            from . import verify as _V
+
+            r = _V.make_value(ret, "r_" + tag.replace("#", "_"), s3, {})
         else:
             r = Opq(fresh("r_" + tag, Obj), None)
+        if spec.get("havoc_prose") and args and isinstance(args[0], Ref) and isinstance(s3.heap[args[0].oid], HDict):
+            # the callee rewrites, in place, the prose ('doc') of every parameter / return entry of the description handed to it (to_docstring does:
+            # update_d(_param, doc=...)): afterwards each such prose is an arbitrary text.  Nothing else of the description is touched - for
+            # to_docstring that is its own obligation TD-frame (the default is rewritten only when the prose itself announces one).
+            top = s3.heap[args[0].oid]
+            for sect in ("params", "returns"):
+                sv = top.vals.get(sect)
+                if isinstance(sv, Ref) and isinstance(s3.heap[sv.oid], HDict):
+                    for ek in s3.heap[sv.oid].keys:
+                        ev = s3.heap[sv.oid].vals[ek]
+                        if isinstance(ev, Ref) and isinstance(s3.heap[ev.oid], HDict) and "doc" in s3.heap[ev.oid].vals:
+                            s3.heap[ev.oid].vals["doc"] = Sym(fresh("hv_%s_%s_doc" % (tag.replace("#", "_"), ek), S), "str")
+            self.assumed.add("opaque call %s: rewrites the prose of the entries of its argument in place (arbitrary new prose) and leaves the rest of it untouched - for to_docstring the latter is TD-frame, true whenever the prose announces no default of its own: the law is stated for such prose" % name)
         s3.log.append({"callee": name, "args": list(args), "kwargs": kwargs, "result": r, "effect": bool(spec.get("effect"))})
-        self.assumed.add("opaque call %s: result unconstrained%s" % (name, ", effect logged" if spec.get("effect") else ""))
+        self.assumed.add("opaque call %s: result unconstrained%s; its arguments are taken to be left as they are%s" % (
+            name, ", effect logged" if spec.get("effect") else "", " apart from the prose" if spec.get("havoc_prose") else ""))
         return [(r, s3)]
 
     def dict_items_concrete(self, v, st):
@@ -1107,7 +1144,7 @@ class Engine:
         if isinstance(fv, Fn):
             return self.call_fn(fv, args, kwargs, st)
         if isinstance(fv, OpaqueFn):
-            return self.opaque_apply(fv.name, list(args), dict(kwargs), st)
+            return self.opaque_apply(fv.name, list(args), dict(kwargs), st, fv.key)
         if isinstance(fv, UFn):
             terms = [to_term(a) for a in args]
             r = fv.decl(*terms)
@@ -1368,14 +1405,15 @@ class Engine:
 
     def after_stmt(self, stmt, st):
         """ghost capture hooks keyed by the statement's source text"""
-        if not self.ghost_hooks or len(self.frames) != 1:
+        if not self.ghost_hooks or (len(self.frames) != 1 and not any(h.startswith("~") for h in self.ghost_hooks)):
             return
         try:
             key = ast.unparse(stmt).split("\n")[0].strip()
         except Exception:
             return
         for hk, caps in self.ghost_hooks.items():
-            if not key.startswith(hk):
+            # a key that opens with '~' also fires inside callees (the nested helper functions of the function under contract)
+            if not (key.startswith(hk[1:]) if hk.startswith("~") else (len(self.frames) == 1 and key.startswith(hk))):
                 continue
             for name, expr in caps:
                 saved = self.mode
@@ -1887,6 +1925,9 @@ class Engine:
                 outs = self.ev(tree, st)
             except NeedFork:
                 raise Unsupported("spec expression needs a fork: %s" % text)
+            if len(outs) == 1 and isinstance(outs[0][0], Raise) and getattr(outs[0][0].exc, "kind", None) in ("KeyError", "IndexError", "AttributeError"):
+                # on this path the clause itself raises (it subscripts an entry that is not there): a postcondition that cannot be evaluated does not hold
+                raise SpecRaises(outs[0][0].exc.kind, "spec expression raises %s on this path: %s" % (outs[0][0].exc.kind, text))
             if len(outs) != 1 or isinstance(outs[0][0], Raise):
                 raise Unsupported("spec expression forked or raised: %s -> %r" % (text, outs[0][0].exc if outs else None))
             v = outs[0][0]
